@@ -147,6 +147,8 @@ def dup_check(ctx, rule='R1'):
         if P.binop('Eq', P.call('*::block_hash', P.param()), P.anything)(r) or P.binop('Eq', P.anything, P.call('*::block_hash', P.param()))(r):
             src = [x for x in walk(r) if isinstance(x, tuple) and x[0] == 'upvar']
             pred_ok = pred_ok or any(P.captured(ex(prog, k), P.has(P.call('*::block_hash', P.param('header'))))(x) for x in src)
+    from rules import atoms
+    atoms.chain_with_tip(ctx, rule)
     ctx.check(good and pred_ok, rule, 'duplicate-check-all-successors', f,
               'AlreadyKnown iff any successor of the parent has the offered block\'s hash; Ok only if none has',
               'the duplicate check does not cover every block already attached to the parent (rows: %s)' % describe_table(ok_rows + dup_rows))
